@@ -647,7 +647,8 @@ EB_API EbErrorType svt_av1_dec_deinit(EbComponentType *svt_dec_component) {
 
     if (!dec_handle_ptr)
         return EB_ErrorNone;
-    if (dec_handle_ptr->dec_config.threads > 1)
+    // the worker threads and their semaphores only exist once the first frame has started them
+    if (dec_handle_ptr->dec_config.threads > 1 && dec_handle_ptr->start_thread_process)
         dec_sync_all_threads(dec_handle_ptr);
     if (!svt_dec_memory_map)
         return EB_ErrorNone;
